@@ -143,9 +143,10 @@ def predicate(c):
         # slices that are exactly real or exactly zero, solved by the same solver object after complex ones: nothing of
         # an earlier slice (work arrays, boundary coefficients) may leak into them
         R4 = rng.standard_normal(shape) + 1j * rng.standard_normal(shape)
-        sel = rng.integers(0, 3, size=(nq, nz))
+        sel = rng.integers(0, 4, size=(nq, nz))
         R4.imag[:, sel == 1] = 0.0
         R4[:, sel == 2] = 0.0
+        R4[:, sel == 3] *= 1e-11            # a slice of very small amplitude is still solved, not flushed
         fields = [R1, R2, R1 + c["alpha"] * R2, R3, R4]
     else:
         rf = fem.make_func(c["rhs"], a, b)
@@ -181,12 +182,14 @@ def predicate(c):
             for j in range(nz):
                 want, cond = dense.solve_discrete(fields[4][:, I, j], r, mv[I] ** 2, lNm, uNm)
                 e4 = np.abs(sols[4][:, I, j] - want)
-                if not (e4 <= tol).all():
+                # every (mode, z) slice is an independent linear solve: its error scales with its own magnitude
+                tol4 = min(tol, 1e4 * EPS * worst * (float(np.abs(want).max()) + 1e-300))
+                if not (e4 <= tol4).all():
                     k = int(np.argmax(e4))
-                    what = ["complex", "exactly real", "exactly zero"][int(sel[I, j])]
+                    what = ["complex", "exactly real", "exactly zero", "tiny (1e-11)"][int(sel[I, j])]
                     raise Violation("C14:galerkin:mixed-slices", "right-hand side with %s slice at mode index %d (m=%g), z %d, solved "
                                     "after complex slices by the same solver: phi(r_%d) = %r, dense Galerkin reference %r "
-                                    "(|diff| %.3e, tol %.3e)" % (what, I, mv[I], j, k, sols[4][k, I, j], want[k], e4[k], tol))
+                                    "(|diff| %.3e, tol %.3e)" % (what, I, mv[I], j, k, sols[4][k, I, j], want[k], e4[k], tol4))
     else:
         e2 = np.abs(sols[2] - ref0)
         if not (e2 <= tol).all():
